@@ -166,6 +166,71 @@ def _cmp(got, ref, shadow, what, case, pt, classes, path):
     return None
 
 
+def _solver_stage(case, env, exprs, es, pv_cur, classes):
+    from optyx import Problem
+    from harness import seams
+    from harness.algebras import natural_key
+
+    maximize = sum(len(show(r)) for r in exprs) % 2 == 1
+    senses = ["<=" if (len(show(r)) + k) % 2 else ">=" for k, r in enumerate(exprs[1:])]
+    try:
+        P = Problem()
+        (P.maximize if maximize else P.minimize)(es[0])
+        for e, sn in zip(es[1:], senses):
+            P.subject_to(e <= 0 if sn == "<=" else e >= 0)
+        pnames = [v.name for v in P.variables]
+        if not pnames:
+            return None
+        with seams.minimize_capture() as cap:
+            P.solve(method="SLSQP")
+    except ArithmeticError:
+        classes.append("solver-stage:undefined-at-x0")
+        return None
+    except Exception as ex:
+        return Result.violation(f"solver-stage-raises:{exc_label(ex)}", f"{[show(r) for r in exprs]}: {ex!r}", classes)
+    if not cap.calls or cap.calls[0].get("jac") is None:
+        return None
+    call = cap.calls[0]
+    cons = list(call.get("constraints") or ())
+    if len(cons) != len(senses):
+        return Result.violation("solver-stage-constraint-count", f"{len(cons)} constraints handed over, {len(senses)} written; "
+                                f"{[show(r) for r in exprs]}", classes)
+    if pnames != sorted(pnames, key=natural_key):
+        return None  # C16's business
+    classes.append("solver-stage:" + ("maximize" if maximize else "minimize"))
+    for pt in case["points"]:
+        refs, shadows, ok = [], [], True
+        for r in exprs:
+            j, sc = jet_ref(env, r, pnames, pt, pv_cur, second=False)
+            if not sc.ok or sc.maxabs > 1e6 or sc.sing < 0.05:
+                ok = False
+                break
+            refs.append(j.g)
+            shadows.append(j.ag)
+        if not ok:
+            continue
+        x = np.array([pt[n] for n in pnames], dtype=float)
+        c2 = dict(case, order=pnames)
+        for rep in ("first call", "second call"):
+            try:
+                g = np.asarray(call["jac"](x.copy()), dtype=float).reshape(-1)
+                cj = [np.asarray(c["jac"](x.copy()), dtype=float).reshape(-1) for c in cons]
+            except Exception as ex:
+                return Result.violation(f"solver-stage-call-raises:{exc_label(ex)}", f"{[show(r) for r in exprs]} at {pt}: {ex!r}", classes)
+            sg = -1.0 if maximize else 1.0
+            r_ = _cmp(g, sg * refs[0], shadows[0], f"objective gradient handed to SciPy ({'maximize' if maximize else 'minimize'}, {rep})",
+                      c2, pt, classes, "solver-objective")
+            if r_:
+                return r_
+            for k, (got, sn) in enumerate(zip(cj, senses)):
+                sk = -1.0 if sn == "<=" else 1.0
+                r_ = _cmp(got, sk * refs[k + 1], shadows[k + 1], f"Jacobian of constraint {k} ({sn} 0) handed to SciPy ({rep})", c2, pt,
+                          classes, "solver-constraint")
+                if r_:
+                    return r_
+    return None
+
+
 def check(case):
     from optyx.core.autodiff import compile_jacobian
     from optyx.core.compiler import CompiledExpression, compile_gradient
@@ -274,6 +339,11 @@ def check(case):
                     r_ = _cmp(np.asarray(gv, dtype=float).reshape(-1), ref[i], shadow[i], f"compile_gradient[{i}][{tag}]", c2, pt, classes, tag)
                     if r_:
                         return r_
+        # (c) what SciPy is handed by a solve: objective gradient (with the orientation's sign) and constraint Jacobians in
+        #     the problem's own variable order, every callable called twice at every point
+        r_ = _solver_stage(case, env, exprs, es, case.get("newp") if (env["params"] and case.get("newp")) else pv, classes)
+        if r_:
+            return r_
     generic = path == "jacobian_fn" and all(p == "symbolic_gradient" for p in gpaths)
     nontrivial = (not generic) or case["vstratum"] in ("perm", "superset", "decl")
     return Result.ok(nontrivial, classes)
